@@ -514,8 +514,11 @@ def judge(env: Env, r: Run, o: Obs, token: str) -> typing.Tuple[
         key = "C19/serves-after-" + r.fault
     else:
         key = "C19/serves-after-failed-" + r.fault
-        if not injected and not wit:
-            inc.append("fault %s was never triggered in %s (call not made?)" % (r.fault, r.sig()))
+        if not injected:
+            # nothing failed, so nothing can be said about abort-on-failure here; the
+            # no-fault run of the same combination decides whether the call is missing
+            if not wit:
+                inc.append("fault %s was never triggered in %s (call not made?)" % (r.fault, r.sig()))
             return wit, inc
     if served:
         add(key, why="start-up continued to the accept loop after the failure",
@@ -619,9 +622,11 @@ def main() -> int:
             if o.connect_after is False:
                 chk.count("connect_refused_after_abort")
         decided = bool(o.events) and not (inc and not wit)
-        want_sample = (r.chroot and r.uid and r.gid and len(sample_traces) < 3) or len(chk.samples) < 2
-        chk.case(r.sig() if decided else None, sample if want_sample else None)
-        if r.chroot and r.uid and r.gid and len(sample_traces) < 3:
+        full = r.chroot and r.uid and r.gid
+        want = full and (r.fault is None or r.fault == "setregid") and len(sample_traces) < 4
+        chk.case(r.sig() if decided else None,
+                 sample if (want or (r.fault is None and len(chk.samples) < 3)) else None)
+        if want:
             sample_traces.append(sample)
         for key, detail in wit:
             chk.witness(key, detail)
